@@ -17,7 +17,7 @@ MANIFEST = {
             "(literals 100, relative tie tolerance 1e-10, //2, 99.99 translated from the source into Gen/Quant.lean): the returned pair are order "
             "statistics sorted[i], sorted[i+lag] with lag = floor(p*n/100), lo <= hi, the closed interval holds >= lag+1 samples, "
             "its width is at most (1+1e-10) times every other lag-pair's width (relative tie tolerance; exactly 0 when some pair has width 0), "
-            "success for every 0<=p, lag<n, and shortest_int commutes with every change of units a*x+b, a>0 (shortest_unit_free; whole ADC: "
+            "success for every 0<=p, lag<n, shortest_int depends on the multiset of samples only (shortest_order_free) and commutes with every change of units a*x+b, a>0 (shortest_unit_free; whole ADC: "
             "adc_unit_free_record); ADC: length preserved, every code in [0,2^n-1], at most 2^n distinct outputs, outputs "
             "within [V_min,V_max], in-range samples move by at most half a step, out-of-range samples saturate at the end codes "
             "(round-half-even, clipping), the code map is monotone (a larger sample never gets a smaller code or level), every level is "
@@ -660,6 +660,15 @@ def run_impl(case):
                                                   f"{(snap.astype(float) * a).tolist()}"])
                             except Exception as e:  # noqa
                                 notes.append(["unit-free", "shortest_int", f"call on data x {a!r} failed: {type(e).__name__}: {e}"[:160]])
+                    # order of the samples (theorem shortest_order_free): the reversed record has the same interval
+                    if isinstance(arg, np.ndarray) and arg.size and snap.size == 2:
+                        try:
+                            outr = shortest_int(arg[::-1].copy(), case["p"])
+                            if not _same_arrays(np.asarray(outr), snap):
+                                notes.append(["order-free", "shortest_int", f"the reversed record gives {np.asarray(outr).tolist()}, the record "
+                                              f"itself {snap.tolist()}"])
+                        except Exception as e:  # noqa
+                            notes.append(["order-free", "shortest_int", f"call on the reversed record failed: {type(e).__name__}: {e}"[:160]])
                     out = snap
                 res.update(status="ok", lo=float(out[0]), hi=float(out[1]), n_out=int(np.size(out)), notes=notes)
                 if before is not None and not np.array_equal(before, arg):
